@@ -134,6 +134,11 @@ pub enum Action {
 	Claim { n: usize, pay: usize },
 	FailBack { n: usize, pay: usize },
 	SetFee { n: usize, rate: u32 },
+	/// the node changes the forwarding policy of all its channels (update_partial_channel_config);
+	/// mix != 0: from now on senders routing through it pay the cheaper fee and the smaller CLTV
+	/// delta of the old and the new policy (an HTLC that satisfies neither policy as a whole when
+	/// the two moved in opposite directions)
+	SetPolicy { n: usize, fee_base: u32, fee_prop: u32, cltv_delta: u16, mix: u8 },
 	CloseCoop { n: usize, chan: usize },
 	ForceClose { n: usize, chan: usize },
 	CompleteMon { n: usize, chan: usize, which: u8 },
@@ -203,6 +208,7 @@ impl Action {
 			Action::Claim { .. } => "Claim",
 			Action::FailBack { .. } => "FailBack",
 			Action::SetFee { .. } => "SetFee",
+			Action::SetPolicy { .. } => "SetPolicy",
 			Action::CloseCoop { .. } => "CloseCoop",
 			Action::ForceClose { .. } => "ForceClose",
 			Action::CompleteMon { .. } => "CompleteMon",
@@ -239,6 +245,7 @@ impl Action {
 			| Action::Claim { n, .. }
 			| Action::FailBack { n, .. }
 			| Action::SetFee { n, .. }
+			| Action::SetPolicy { n, .. }
 			| Action::CloseCoop { n, .. }
 			| Action::ForceClose { n, .. }
 			| Action::CompleteMon { n, .. }
@@ -439,6 +446,11 @@ pub struct Node {
 	pub unsweepable_sat: u64,
 	pub forward_fees_told_msat: u64,
 	/// channels closed with OutdatedChannelManager in the current incarnation
+	/// forwarding policies (fee base, proportional, CLTV delta) this node advertised before its
+	/// current one (`cfg`), oldest first
+	pub policy_hist: Vec<(u32, u32, u16)>,
+	/// senders mix the previous and the current policy of this node (see Action::SetPolicy)
+	pub policy_mix: bool,
 	pub outdated_chans: BTreeSet<usize>,
 	/// channels closed with OutdatedChannelManager in any incarnation so far
 	pub ever_outdated_chans: BTreeSet<usize>,
@@ -757,6 +769,8 @@ impl World {
 				sweeps: Vec::new(),
 				unsweepable_sat: 0,
 				forward_fees_told_msat: 0,
+				policy_hist: Vec::new(),
+				policy_mix: false,
 				outdated_chans: BTreeSet::new(),
 				ever_outdated_chans: BTreeSet::new(),
 				inherited_terminal: Vec::new(),
@@ -1949,7 +1963,69 @@ impl World {
 	/// Forwarding policy of node `n` as the sender must honour it.
 	fn fwd_fee(&self, n: usize, amt_out: u64) -> u64 {
 		let c = &self.nodes[n].cfg;
-		c.fee_base_msat as u64 + amt_out * c.fee_prop_millionths as u64 / 1_000_000
+		let cur = c.fee_base_msat as u64 + amt_out * c.fee_prop_millionths as u64 / 1_000_000;
+		match (self.nodes[n].policy_mix, self.nodes[n].policy_hist.last()) {
+			(true, Some((b, p, _))) => cur.min(*b as u64 + amt_out * *p as u64 / 1_000_000),
+			_ => cur,
+		}
+	}
+
+	/// CLTV delta a sender leaves node `n` (the smaller of the previous and the current policy's
+	/// when the senders mix them).
+	fn fwd_delta(&self, n: usize) -> u16 {
+		let cur = self.nodes[n].cfg.cltv_delta;
+		match (self.nodes[n].policy_mix, self.nodes[n].policy_hist.last()) {
+			(true, Some((_, _, d))) => cur.min(*d),
+			_ => cur,
+		}
+	}
+
+	pub fn do_set_policy(&mut self, n: usize, fee_base: u32, fee_prop: u32, cltv_delta: u16, mix: u8) -> bool {
+		let mgr = match self.mgr(n) {
+			Some(m) => m,
+			None => return false,
+		};
+		if n >= self.nodes.len() || cltv_delta < 48 {
+			return false;
+		}
+		let upd = lightning::util::config::ChannelConfigUpdate {
+			forwarding_fee_base_msat: Some(fee_base),
+			forwarding_fee_proportional_millionths: Some(fee_prop),
+			cltv_expiry_delta: Some(cltv_delta),
+			..Default::default()
+		};
+		let mut any = false;
+		for c in self.chans.clone().iter() {
+			if c.a != n && c.b != n {
+				continue;
+			}
+			let peer = if c.a == n { c.b } else { c.a };
+			let pid = self.nodes[peer].node_id;
+			match catch(|| mgr.update_partial_channel_config(&pid, &[c.channel_id], &upd)) {
+				Ok(Ok(())) => any = true,
+				Ok(Err(_)) => {},
+				Err((m, l)) => {
+					self.library_panic("SetPolicy", m, l);
+					return true;
+				},
+			}
+		}
+		if !any {
+			return false;
+		}
+		let old = (self.nodes[n].cfg.fee_base_msat, self.nodes[n].cfg.fee_prop_millionths, self.nodes[n].cfg.cltv_delta);
+		self.nodes[n].policy_hist.push(old);
+		self.nodes[n].cfg.fee_base_msat = fee_base;
+		self.nodes[n].cfg.fee_prop_millionths = fee_prop;
+		self.nodes[n].cfg.cltv_delta = cltv_delta;
+		self.nodes[n].policy_mix = mix != 0;
+		self.out.bump("fault:forwarding_policy_changed");
+		if mix != 0 && ((fee_base > old.0 || fee_prop > old.1) && cltv_delta < old.2 || (fee_base < old.0 || fee_prop < old.1) && cltv_delta > old.2) {
+			self.out.bump("fault:senders_mix_two_policies_that_moved_in_opposite_directions");
+		}
+		self.note(&format!("node {} policy {:?} -> ({}, {}, {}) mix {}", n, old, fee_base, fee_prop, cltv_delta, mix));
+		self.after_node_action(n);
+		true
 	}
 
 	/// Final-hop CLTV delta of path `pi`. Profile `deadlines` explores the recipient's acceptance
@@ -2000,7 +2076,7 @@ impl World {
 				let ca = if single { if cltv_adj == -(i as i32 + 1) { -1 } else { 0 } } else { cltv_adj };
 				let fee = self.fwd_fee(nodes[i], hop_amts[i + 1]) as i64 + fd;
 				hop_amts[i] = (hop_amts[i + 1] as i64 + fee.max(0)) as u64;
-				deltas[i] = (self.nodes[nodes[i]].cfg.cltv_delta as i32 + ca).max(0) as u32;
+				deltas[i] = (self.fwd_delta(nodes[i]) as i32 + ca).max(0) as u32;
 			}
 			out.push(PathInfo { chans: chans.clone(), nodes, hop_amts, hop_cltv_deltas: deltas });
 		}
@@ -2666,6 +2742,7 @@ impl World {
 			Action::Claim { n, pay } => self.do_claim(*n, *pay),
 			Action::FailBack { n, pay } => self.do_fail_back(*n, *pay),
 			Action::SetFee { n, rate } => self.do_set_fee(*n, *rate),
+			Action::SetPolicy { n, fee_base, fee_prop, cltv_delta, mix } => self.do_set_policy(*n, *fee_base, *fee_prop, *cltv_delta, *mix),
 			Action::CloseCoop { n, chan } => self.do_close_coop(*n, *chan),
 			Action::ForceClose { n, chan } => self.do_force_close(*n, *chan),
 			Action::CompleteMon { n, chan, which } => self.do_complete_mon(*n, *chan, *which),
